@@ -396,19 +396,68 @@ class Translator:
         return any(is_self_call(st, "_clear_cache") for st in fn.body)
 
     def set_train_data(self):
+        """-> Lean `fun i t => …`: clearing statements reached given `inputs is not None` (i) / `targets is not None` (t)"""
         fn = self.src.methods("ExactGP").get("set_train_data")
         if fn is None:
             raise TranslateError("ExactGP.set_train_data not found")
-        effs = []
+
+        def effects(body, where):
+            effs = []
+            for st in body:
+                if (isinstance(st, ast.Assign) and len(st.targets) == 1 and is_self_attr(st.targets[0], "prediction_strategy")):
+                    if isinstance(st.value, ast.Constant) and st.value.value is None:
+                        effs.append(("dropStrategy",))
+                    else:
+                        raise TranslateError(f"set_train_data: `{_src(st)}` outside the vocabulary")
+                elif is_self_call(st, "_clear_cache"):
+                    effs += self.clear_cache_effects("ExactGP")
+                elif not (isinstance(st, ast.If) and where == "top" and _src(st.test) in ("inputs is not None", "targets is not None")):
+                    for n in ast.walk(st):
+                        if (isinstance(n, ast.Assign) and any(is_self_attr(t, "prediction_strategy") for t in n.targets)) or \
+                                (isinstance(n, ast.Call) and is_self_attr(n.func, "_clear_cache")):
+                            raise TranslateError(f"set_train_data: clearing statement nested in `{_src(st)[:60]}…` (outside the vocabulary)")
+            return effs
+        top = effects(fn.body, "top")
+        cond = {"inputs is not None": [], "targets is not None": []}
         for st in fn.body:
-            if (isinstance(st, ast.Assign) and len(st.targets) == 1 and is_self_attr(st.targets[0], "prediction_strategy")):
-                if isinstance(st.value, ast.Constant) and st.value.value is None:
-                    effs.append(("dropStrategy",))
-                else:
-                    raise TranslateError(f"set_train_data: `{_src(st)}` outside the vocabulary")
-            elif is_self_call(st, "_clear_cache"):
-                effs += self.clear_cache_effects("ExactGP")
-        return effs
+            if isinstance(st, ast.If) and _src(st.test) in cond:
+                cond[_src(st.test)] += effects(st.body, "branch")
+                if effects(st.orelse, "branch"):
+                    raise TranslateError("set_train_data: clearing statement in an else-branch (outside the vocabulary)")
+
+        def lst(effs):
+            return "[" + ", ".join(self._eff(e) for e in effs) + "]"
+        self.table_std = {"always": top, "inputs": cond["inputs is not None"], "targets": cond["targets is not None"]}
+        return (f"fun i t => {lst(top)} ++ (if i then {lst(cond['inputs is not None'])} else []) ++ "
+                f"(if t then {lst(cond['targets is not None'])} else [])")
+
+    def legacy_conversion_clears(self):
+        """`VariationalStrategy.__call__`: the re-whitening block for old-format state dicts ends by emptying the memo"""
+        m = self.src.methods("VariationalStrategy").get("__call__")
+        if m is None:
+            return True   # no conversion block at all
+        body = [st for st in m.body if not is_docstring(st)]
+        blk = body[0]
+        if not (isinstance(blk, ast.If) and "updated_strategy" in _src(blk.test)):
+            raise TranslateError("VariationalStrategy.__call__: legacy block not found")
+
+        def is_clear(st):
+            return (is_self_call(st, "_clear_cache") or
+                    (isinstance(st, ast.Expr) and _src(st.value) == "clear_cache_hook(self)"))
+        level = blk.body
+        if len(level) == 1 and isinstance(level[0], ast.With):
+            level = level[0].body
+        found = any(is_clear(st) for st in level)
+        nested = sum(1 for n in ast.walk(blk) if isinstance(n, ast.Expr) and is_clear(n))
+        if nested and not found:
+            raise TranslateError("VariationalStrategy.__call__: conditional cache clearing in the legacy block (outside the vocabulary)")
+        # the clearing must come after the parameters were rewritten
+        if found:
+            idx_clear = max(i for i, st in enumerate(level) if is_clear(st))
+            idx_write = max((i for i, st in enumerate(level) if "initialize_variational_distribution" in _src(st)), default=-1)
+            if idx_write > idx_clear:
+                return False
+        return found
 
     def var_call_guard(self):
         fn = self.src.methods("_VariationalStrategy").get("__call__")
@@ -659,6 +708,7 @@ class Translator:
         T["trainClears"] = self.train_guard()
         T["loadClears"] = self.load_clears()
         T["setTrainData"] = self.set_train_data()
+        T["legacyConversionClears"] = self.legacy_conversion_clears()
         T["varCallClears"] = self.var_call_guard()
         T["strategyGuardedByIsNone"], T["strategyKeyedOnLazy"] = self.strategy_creation()
         T["defaultReadsCovarCache"] = self.covar_read_guard()
@@ -715,7 +765,8 @@ class Translator:
         L.append("  { classes := [" + ", ".join(f"c_{c['name']}" for c in T["classes"]) + "],")
         L.append(f"    trainClears := {T['trainClears']},")
         L.append(f"    loadClears := {b(T['loadClears'])},")
-        L.append("    setTrainData := [" + ", ".join(self._eff(e) for e in T["setTrainData"]) + "],")
+        L.append(f"    setTrainData := {T['setTrainData']},")
+        L.append(f"    legacyConversionClears := {b(T['legacyConversionClears'])},")
         L.append(f"    varCallClears := {T['varCallClears']},")
         L.append(f"    strategyGuardedByIsNone := {b(T['strategyGuardedByIsNone'])},")
         L.append(f"    strategyKeyedOnLazy := {b(T['strategyKeyedOnLazy'])},")
